@@ -247,10 +247,26 @@ def rewrite_targets(tier, rng):
         "x[::-1, ::-1][1:3]": (lambda x: x[::-1, ::-1][1:3], lambda a: a[::-1, ::-1][1:3]),
         "tensordot(x, x.T)": (lambda x: da.tensordot(x, x.T, axes=1), lambda a: np.tensordot(a, a.T, axes=1)),
     }
+    # overlap computations followed by slices near and away from the edges (reference: the raw, unoptimised form)
+    def halo(depth):
+        def f(b):
+            k = np.ones(2 * depth + 1)
+            return np.convolve(b, k, mode="same")
+        return f
+    for bnd in ("periodic", "reflect", "nearest", "none", 0.0):
+        for depth in (1, 2, 3):
+            for a, b in ((1, 12), (2, 10), (0, 3), (9, 12), (1, 3), (10, 11), (4, 8), (0, 12)):
+                if tier == "quick" and (depth == 3 or (a, b) in ((0, 12), (4, 8)) and bnd not in ("periodic",)):
+                    continue
+                ops1[f"map_overlap(depth={depth},boundary={bnd})[{a}:{b}]"] = (
+                    (lambda x, depth=depth, bnd=bnd, a=a, b=b: x.map_overlap(halo(depth), depth=depth, boundary=bnd, dtype="f8")[a:b]),
+                    None)
     for c in lay1:
         for sname, mk in srcs1(c):
             for oname, (f, g) in ops1.items():
-                out.append((f"1d/{sname}/{c}/{oname}", (lambda mk=mk, f=f, g=g: (f(mk()), g(d1), {}))))
+                if g is None and (sname != "np" or min(c) < 4):
+                    continue  # overlap entries: NumPy sources, blocks at least as large as the depth
+                out.append((f"1d/{sname}/{c}/{oname}", (lambda mk=mk, f=f, g=g: (f(mk()), (g(d1) if g is not None else None), {}))))
     for c in lay2:
         for sname, mk in srcs2(c):
             for oname, (f, g) in ops2.items():
